@@ -219,6 +219,8 @@ func c06Session(line string) string {
 	}
 
 	cConn, pConn := net.Pipe()
+	// nothing the scripted reader does may block for good, whatever the client does
+	_ = pConn.SetDeadline(time.Now().Add(10 * time.Second))
 	peer := &c06Peer{conn: pConn, r1: f[2], r2: f[3], closeOnSilence: closeOnSilence,
 		acks: make(chan c06Frame, 4), done: make(chan struct{})}
 	go peer.run()
